@@ -56,6 +56,10 @@ Base(id, n) ==
                   tree |-> Arr(<<BstrW(Map(<<>>)), Map(<<<<UInt(4), Bstr(<<49>>)>>>>), Null,
                                  Arr(<<Arr(<<BstrW(Map(<<AlgP(n)>>)), Map(<<<<UInt(7), CsA>>>>), Bstr(Fill(1, n))>>)>>)>>)]
     [] id \in 9..14 -> SizedBase(id, n)
+    [] id = 15 -> [kind |-> "sign1", ext |-> <<>>, payload |-> <<1, 2>>, slots |-> <<n>>,          \* countersignature lists of 3, 1 and 4 entries
+                   tree |-> Arr(<<BstrW(Map(<<AlgP(n)>>)), Map(<<<<UInt(7), Arr(<<CsA, CsB, CsA>>)>>, <<UInt(11), Arr(<<CsB>>)>>>>), Bstr(<<1, 2>>), Bstr(Fill(1, n))>>)]
+    [] id = 16 -> [kind |-> "sig", ext |-> <<>>, payload |-> <<1, 2>>, slots |-> <<n>>,
+                   tree |-> Arr(<<BstrW(Map(<<AlgP(n)>>)), Map(<<<<UInt(11), Arr(<<CsA, CsB, CsB, CsA>>)>>>>), Bstr(Fill(1, n))>>)]
     [] id = 8 -> [kind |-> "sig", ext |-> <<>>, payload |-> <<1, 2>>, slots |-> <<n>>,
                   tree |-> Arr(<<BstrW(Map(<<AlgP(n), <<UInt(4), Bstr(<<49>>)>>>>)), Map(<<>>), Bstr(Fill(1, n))>>)]
 
